@@ -94,6 +94,9 @@ def build(repo, outdir, with_contracts=True, inferred=None, with_bt=True, droppe
     return ex, fns, loops, text, linemap, info, unit
 
 
+DROPPED_OPT_LAST = set()   # optional clauses pruned in the last verify_with_inference (canaries start from the same contracts)
+
+
 def optional_failures(text, res):
     """ids of optional clauses (marked `/*@opt:ID*/` on their line) whose proof failed in this run"""
     ulines = text.split('\n')
@@ -183,6 +186,8 @@ def verify_with_inference(repo, outdir):
                                 changed = True
         if not changed:
             break
+    DROPPED_OPT_LAST.clear()
+    DROPPED_OPT_LAST.update(dropped_opt)
     info['inferred_contracts'] = inferred or {}
     info['inference_log'] = log
     return ex, fns, loops, text, linemap, info, unit, res
@@ -221,8 +226,15 @@ def run_canary(c, idx):
         return {'name': c['name'], 'status': 'skipped', 'why': 'mutation site not found exactly once in the working tree'}
     open(p, 'w').write(s.replace(c['old'], c['new']))
     try:
-        ex, fns, loops, text, linemap, info, unit = build(d, os.path.join(d, 'u'))
-        r = verus(unit, multiple_errors=3)
+        ex, fns, loops, text, linemap, info, unit = build(d, os.path.join(d, 'u'), dropped_opt=DROPPED_OPT_LAST)
+        r = None
+        if c['expect_fn']:
+            # only the function the mutation must break (seconds instead of a full unit); full run if that matches nothing
+            r = verus(unit, multiple_errors=3, extra=['--verify-root', '--verify-function', c['expect_fn']])
+            if r['verified'] + r['errors'] == 0:
+                r = None
+        if r is None:
+            r = verus(unit, multiple_errors=3)
     except (Undecided, AnchorLost, weave.SpecError) as e:
         return {'name': c['name'], 'status': 'undecided', 'why': str(e)[:300]}
     hits = []
@@ -275,15 +287,19 @@ def deep_probe(tier, kinds=None):
 
 
 BT_QUICK = [('empty_file', 2), ('fn_1', 2), ('generic_1', 2), ('fn_name_2', 3), ('error_then_fn_2', 3), ('adt_variant_2', 3)]
+BT_QUICK_CROSS = [('fn_1', 2), ('error_then_fn_2', 3)]
 BT_THOROUGH = [('empty_file', 3), ('fn_1', 3), ('generic_1', 3), ('fn_name_2', 4), ('error_then_fn_2', 4), ('adt_variant_2', 4),
                ('const_nested_2', 4), ('wrapped_3', 4)]
 
 
-def run_tree_builder(tier):
+def run_tree_builder(tier, in_unit=False):
     """C01-B / C01-C: bounded Kani checks of the real build_tree (stubbed rowan builder) and of the
     contracts of Parser::nth / Parser::error that the Verus unit assumes."""
     d = os.path.join(scratch(), 'syntax_kani')
     pairs = BT_QUICK if tier == 'quick' else BT_THOROUGH
+    if tier == 'quick' and in_unit:
+        # Parser::build_tree is verified by Verus in this run: two shapes stay as a cross-check of the trace specification
+        pairs = BT_QUICK_CROSS
     text, names = gen_build_tree.generate(open(os.path.join(VERIF, 'kani/parser/build_tree.rs.in')).read(), pairs)
     gen = os.path.join(scratch(), 'build_tree_gen.rs')
     open(gen, 'w').write(text)
@@ -370,7 +386,7 @@ def main(prop, tier):
         fut_reach = pool.submit(run_reach, ex, fns, text, os.path.join(sd, 'reach'))
         fut_can = [pool.submit(run_canary, c, i) for i, c in enumerate(canaries)]
         fut_drv = pool.submit(witness.build_driver) if want_driver else None
-        fut_bt = pool.submit(run_tree_builder, tier) if prop == 'C01' else None
+        fut_bt = pool.submit(run_tree_builder, tier, bool(info.get('tree_builder_in_unit'))) if prop == 'C01' else None
         try:
             res = fut_main.result()
             reach = fut_reach.result()
@@ -521,7 +537,7 @@ def main(prop, tier):
         'discharged': res['verified'],
         'checker_cmd': res['cmd'] + '   (unit generated from /repo working tree by tools/extract_parser.py + tools/weave.py)',
         'trusted_base': assumptions_found + [
-            'contract of Parser::error is assumed here (external_body, R7: closure with a pattern parameter) and checked on the same text by the Kani unit (C20 / C01-C); Parser::nth is verified in place (on the R10-rewritten text; the Kani harness nth_contract checks the same contract on the real Cell-based text)',
+            'Parser::error and Parser::nth are verified in place (error after R19: its closure with a reference-pattern parameter is desugared into a variable + let; nth on the R10-rewritten text); the Kani harnesses error_contract / nth_contract check the same contracts on the un-rewritten text, i.e. they validate R19 and R10; rowan::TextRange / TextSize are two-field stand-in structs (TextRange::empty, TextSize::from(u32) with their obvious meaning)',
             'token vector length + 8 <= usize::MAX (requires of verif_top / verif_parse; a Vec of 40-byte LexTokens cannot be longer than isize::MAX / 40)',
             'glue lines of parse_module that are not extracted: lexing (tokens_raw) and the trivia filter; from them verif_parse takes `tokens.len() == number of non-trivia raw tokens` and `every parser token has a token kind`',
             'rowan GreenNodeBuilder specified by its call trace (contracts/parser_stubs.rs): start_node/token/finish_node append to the trace, finish() requires a single-root balanced trace; text-size str[TextRange] uninterpreted; std take_while/count and Option::map_or by assume_specification',
@@ -551,6 +567,9 @@ def main(prop, tier):
         'bounded_checks': bounded,
         'samples': sorted(res['func_times'].keys())[:12],
         'extraction_dropped': ex['dropped'],
+        'tree_builder': {'verified_in_this_unit': bool(info.get('tree_builder_in_unit')), 'fallback_reason': info.get('tree_builder_fallback_reason'),
+                         'rewrites': ex.get('rewrites_build_tree'), 'optional_clauses_dropped': info.get('optional_clauses_dropped')},
+        'closures_under_contract': info.get('closures_contracted'),
     }
     write_evidence(prop, tier, 'proof', cov,
                    ['see coverage.trusted_base'], wall, len(violations),
